@@ -1120,7 +1120,7 @@ add('c15-references-snapshot-before-add-book', 'C15', 'break', [(EXCEL, """     
             if n_id in references:"""), (EXCEL, """                continue
             references = self.references
             formula_ranges = self.formula_ranges(context)""", """                continue
-            formula_ranges = self.formula_ranges(context)""")], expect='C15.worklist')
+            formula_ranges = self.formula_ranges(context)""")], expect='C15.snapshot')
 add('c18-paren-guard-only-ranges', 'C18', 'break', [(PAREN, """        if self.has_start and tokens and isinstance(tokens[-1], Operand):
             raise TokenError""", """        if self.has_start and tokens and isinstance(tokens[-1], Range):
             raise TokenError"""), (PAREN, """        from .operand import Operand
@@ -1145,6 +1145,342 @@ def xnow():
     if 'now' not in _clock:
         _clock['now'] = datetime.datetime.now()
     d = _clock['now']""")], expect='C13.nomemo')
+
+# ---------------------------------------------------------------- round-2 rules
+RANGES = 'formulas/ranges.py'
+CELL = 'formulas/cell.py'
+CYCLE = 'formulas/excel/cycle.py'
+FUNCTION = 'formulas/tokens/function.py'
+OPERAND = 'formulas/tokens/operand.py'
+_HOIST = [(EXCEL, """        stack = sorted(stack)
+        sheet_limits = {}""", """        stack = sorted(stack)
+        sheet_limits, references = {}, self.references"""), (EXCEL, """            done.add(n_id)
+            if n_id in self.references:""", """            done.add(n_id)
+            if n_id in references:"""), (EXCEL, """                continue
+            references = self.references
+            formula_ranges = self.formula_ranges(context)""", """                continue
+            formula_ranges = self.formula_ranges(context)""")]
+add('c15-snapshot-hoisted-before-loop', 'C15', 'break', _HOIST, expect='C15.snapshot')
+add('c03-snapshot-hoisted-before-loop', 'C03', 'break', _HOIST, expect='C03.snapshot')
+add('c15-snapshot-refreshed-only-on-success-path', 'C15', 'break', [(EXCEL, """        stack = sorted(stack)
+        sheet_limits = {}""", """        stack = sorted(stack)
+        sheet_limits, references = {}, self.references"""), (EXCEL, """            done.add(n_id)
+            if n_id in self.references:""", """            done.add(n_id)
+            if n_id in references:""")], expect='C15.snapshot')
+add('c15-benign-snapshot-read-earlier-after-add-book', 'C15', 'benign', [(EXCEL, """                continue
+            formula_references = self.formula_references(context)
+            if rng.get('anchor'):""", """                continue
+            references = self.references
+            formula_references = self.formula_references(context)
+            if rng.get('anchor'):"""), (EXCEL, """                continue
+            references = self.references
+            formula_ranges = self.formula_ranges(context)""", """                continue
+            formula_ranges = self.formula_ranges(context)""")])
+add('c17-compile-reads-emptied-cells', 'C17', 'break', [(EXCEL, """        for i in inputs:
+            inp.update(nodes.get(i, {}).get('inv-data', ()))""", """        for i in inputs:
+            inp.update(nodes.get(i, {}).get('inv-data', ()))
+            if i in self.cells:
+                inp.update(self.cells[i].inputs or ())""")], expect='C17.emptied')
+_TODICT = [(EXCEL, """        for d in self.dsp.function_nodes.values():
+            fun = d['function']
+            if isinstance(fun, CellWrapper):
+                nodes.update(dict.fromkeys(d['outputs'], fun.__name__))
+        return nodes""", """        nodes.update({
+            k: cell.__name__ for k, cell in self.cells.items() if cell.func
+        })
+        return nodes""")]
+add('c09-to-dict-from-cells-registry', 'C09', 'break', _TODICT, expect='C09.source')
+add('c17-to-dict-from-cells-registry', 'C17', 'break', _TODICT, expect='C17.emptied')
+add('c17-benign-getstate-keeps-cells', 'C17', 'benign', [(EXCEL, """        return {'dsp': self.dsp, 'cells': {}, 'books': {}}""", """        state = {'dsp': self.dsp, 'cells': {}, 'books': {}}
+        return state""")], may_error=True)
+add('c17-setstate-shares-class-level-defaults', 'C17', 'break', [(EXCEL, """    def __getstate__(self):
+        return {'dsp': self.dsp, 'cells': {}, 'books': {}}""", """    _unloaded = {'cells': {}, 'books': {}}
+
+    def __getstate__(self):
+        return {'dsp': self.dsp}
+
+    def __setstate__(self, state):
+        self.__dict__.update(self._unloaded)
+        self.__dict__.update(state)""")], expect='C17.restore')
+add('c17-init-binds-module-level-dict', 'C17', 'break', [(EXCEL, """        self.cells = {}
+        self.books = {}""", """        self.cells = {}
+        self.books = _NO_BOOKS"""), (EXCEL, """BOOK = sh.Token('Book')""", """_NO_BOOKS = {}
+BOOK = sh.Token('Book')""")], expect='C17.restore')
+add('c17-benign-init-copies-module-level-dict', 'C17', 'benign', [(EXCEL, """        self.cells = {}
+        self.books = {}""", """        self.cells = {}
+        self.books = dict(_NO_BOOKS)"""), (EXCEL, """BOOK = sh.Token('Book')""", """_NO_BOOKS = {}
+BOOK = sh.Token('Book')""")])
+add('c07-callable-filter-memoises-on-self', 'C07', 'break', [(CELL, """class Cell:
+    parser = Parser()""", """class CellOutput:
+    def __init__(self, rng, value):
+        self.rng, self.value, self.output = rng, value, None
+
+    def __call__(self, value):
+        if np.ndim(value) or value != self.value:
+            return format_output(self.rng, value)
+        if self.output is None:
+            self.output = format_output(self.rng, self.value)
+        return self.output
+
+
+class Cell:
+    parser = Parser()""")], expect='C07.nomut')
+add('c07-benign-callable-filter-stateless', 'C07', 'benign', [(CELL, """class Cell:
+    parser = Parser()""", """class CellOutput:
+    def __init__(self, rng):
+        self.rng = rng
+
+    def __call__(self, value):
+        return format_output(self.rng, value)
+
+
+class Cell:
+    parser = Parser()""")])
+_BLANK = [(RANGES, """def _assemble_values(base, values, out=None):
+    if out is None:
+        out = np.empty(_shape(**base), object)
+        out[:, :] = ''""", """def _new_blank(shape):
+    out = np.empty(shape, object)
+    out[:, :] = ''
+    return out
+
+
+_large_blank = functools.lru_cache(maxsize=8)(_new_blank)
+
+
+def _assemble_values(base, values, out=None):
+    if out is None:
+        out = _large_blank(_shape(**base))[:]"""), (RANGES, """import itertools
+import numpy as np""", """import functools
+import itertools
+import numpy as np""")]
+add('c06-blank-block-from-memoised-template', 'C06', 'break', _BLANK, expect='C06.shared')
+add('c17-blank-block-from-memoised-template', 'C17', 'break', _BLANK, expect='C17.global')
+add('c06-benign-blank-block-copied-from-template', 'C06', 'benign', [(RANGES, """def _assemble_values(base, values, out=None):
+    if out is None:
+        out = np.empty(_shape(**base), object)
+        out[:, :] = ''""", """def _new_blank(shape):
+    out = np.empty(shape, object)
+    out[:, :] = ''
+    return out
+
+
+_large_blank = functools.lru_cache(maxsize=8)(_new_blank)
+
+
+def _assemble_values(base, values, out=None):
+    if out is None:
+        out = _large_blank(_shape(**base)).copy()"""), (RANGES, """import itertools
+import numpy as np""", """import functools
+import itertools
+import numpy as np""")])
+add('c06-sub-splits-only-against-right-operand', 'C06', 'break', [(RANGES, """        base = other.ranges
+        for r0 in self.ranges:
+            stack = [r0]
+            for b in base:
+                s = stack.copy()
+                stack = []
+                for r in s:
+                    stack.extend(_split(b, r, format_range=self.format_range))
+            base += tuple(stack)
+        base, values = base[len(other.ranges):], self.values
+        return Ranges(base, values)""", """        ranges, fmt = [], self.format_range
+        for r0 in self.ranges:
+            stack = [r0]
+            for b in other.ranges:
+                stack = [
+                    r for s in stack for r in _split(b, s, format_range=fmt)
+                ]
+            ranges.extend(stack)
+        return Ranges(tuple(ranges), self.values)""")], expect='C06.nodup')
+add('c06-benign-sub-with-running-list', 'C06', 'benign', [(RANGES, """        base = other.ranges
+        for r0 in self.ranges:
+            stack = [r0]
+            for b in base:
+                s = stack.copy()
+                stack = []
+                for r in s:
+                    stack.extend(_split(b, r, format_range=self.format_range))
+            base += tuple(stack)
+        base, values = base[len(other.ranges):], self.values
+        return Ranges(base, values)""", """        seen, fmt = list(other.ranges), self.format_range
+        for r0 in self.ranges:
+            stack = [r0]
+            for b in seen:
+                stack = [
+                    r for s in stack for r in _split(b, s, format_range=fmt)
+                ]
+            seen.extend(stack)
+        return Ranges(tuple(seen[len(other.ranges):]), self.values)""")])
+add('c13-repeated-volatile-call-registered-bare', 'C13', 'break', [(BUILDER, """                self.dsp.add_function(None, sh.bypass, [out], [n_id])""", """                func = token.compile()
+                if isinstance(func, dict):
+                    self.dsp.add_function(
+                        get_id(dmap, token.name), func['function'],
+                        inputs or None, [n_id]
+                    )
+                else:
+                    self.dsp.add_function(None, sh.bypass, [out], [n_id])""")], expect='C13.mask')
+add('c14-cell-with-unsupported-function-becomes-constant', 'C14', 'break', [(CELL, """        if not self.func and self.builder:
+            func = self.builder.compile(
+                references=references, context=context, **{CELL: self.range}
+            )
+            self.func = wrap_cell_func(func, self._args)
+            self.update_inputs(references=references)
+            self.builder = None
+        return self""", """        if not self.func and self.builder:
+            if self.builder.missing_operands:
+                self.value = Error.errors['#NAME?']
+            else:
+                func = self.builder.compile(
+                    references=references, context=context,
+                    **{CELL: self.range}
+                )
+                self.func = wrap_cell_func(func, self._args)
+                self.update_inputs(references=references)
+            self.builder = None
+        return self""")], expect='C14.local')
+add('c14-benign-compile-early-return', 'C14', 'benign', [(CELL, """        if not self.func and self.builder:
+            func = self.builder.compile(
+                references=references, context=context, **{CELL: self.range}
+            )
+            self.func = wrap_cell_func(func, self._args)
+            self.update_inputs(references=references)
+            self.builder = None
+        return self""", """        if self.func or not self.builder:
+            return self
+        func = self.builder.compile(
+            references=references, context=context, **{CELL: self.range}
+        )
+        self.func = wrap_cell_func(func, self._args)
+        self.update_inputs(references=references)
+        self.builder = None
+        return self""")])
+add('c10-cut-node-chosen-by-any-over-set', 'C10', 'break', [(EXCEL, """            for k in sorted(cycle.intersection(f_nodes)):
+                if _check_cycles(dmap, k, f_nodes, cycle, active_nodes, mod):
+                    break
+            else:
+                cycles_nodes.update(cycle)""", """            check = functools.partial(
+                _check_cycles, dmap, nodes=f_nodes, cycle=cycle,
+                active_nodes=active_nodes, mod=mod
+            )
+            if not any(map(check, cycle.intersection(f_nodes))):
+                cycles_nodes.update(cycle)""")], expect='C10.ord')
+add('c10-benign-cut-node-any-over-sorted', 'C10', 'benign', [(EXCEL, """            for k in sorted(cycle.intersection(f_nodes)):
+                if _check_cycles(dmap, k, f_nodes, cycle, active_nodes, mod):
+                    break
+            else:
+                cycles_nodes.update(cycle)""", """            check = functools.partial(
+                _check_cycles, dmap, nodes=f_nodes, cycle=cycle,
+                active_nodes=active_nodes, mod=mod
+            )
+            if not any(map(check, sorted(cycle.intersection(f_nodes)))):
+                cycles_nodes.update(cycle)""")])
+add('c10-blocking-map-hoisted-out-of-component-loop', 'C10', 'break', [(CYCLE, """    sccs = _strongly_connected_components(graph)
+    while sccs:""", """    sccs = _strongly_connected_components(graph)
+    no_circuit = defaultdict(set)
+    while sccs:"""), (CYCLE, """        path, blocked, closed = [startnode], {startnode}, set()
+        no_circuit = defaultdict(set)
+""", """        path, blocked, closed = [startnode], {startnode}, set()
+""")], expect='C10.fresh')
+add('c10-benign-blocking-map-cleared-per-component', 'C10', 'benign', [(CYCLE, """    sccs = _strongly_connected_components(graph)
+    while sccs:""", """    sccs = _strongly_connected_components(graph)
+    no_circuit = defaultdict(set)
+    while sccs:
+        no_circuit.clear()"""), (CYCLE, """        path, blocked, closed = [startnode], {startnode}, set()
+        no_circuit = defaultdict(set)
+""", """        path, blocked, closed = [startnode], {startnode}, set()
+""")])
+add('c10-cut-inputs-overwritten-per-cycle', 'C10', 'break', [(EXCEL, """            res and sh.get_nested_dicts(mod, node_id, default=set).update(res)""", """            if res:
+                mod[node_id] = set(res)""")], expect='C10.accum')
+add('c10-benign-cut-inputs-setdefault', 'C10', 'benign', [(EXCEL, """            res and sh.get_nested_dicts(mod, node_id, default=set).update(res)""", """            if res:
+                mod.setdefault(node_id, set()).update(res)""")])
+add('c11-convert-nan-passes-value-on-typeerror', 'C11', 'break', [(F, """    return value if np.isfinite(value) else default""", """    try:
+        return value if np.isfinite(value) else default
+    except TypeError:
+        return value""")], expect='C11.finite')
+add('c11-benign-convert-nan-statement-form', 'C11', 'benign', [(F, """    return value if np.isfinite(value) else default""", """    if np.isfinite(value):
+        return value
+    return default""")])
+add('c01-function-text-drops-trailing-empty-arguments', 'C01', 'break', [(FUNCTION, """        args = ', '.join(t.get_expr for t in tokens)
+        self.attr['expr'] = '%s(%s)' % (self.name.upper(), args)""", """        args = [t.get_expr for t in tokens]
+        while args and not args[-1]:
+            args.pop()
+        self.attr['expr'] = '%s(%s)' % (self.name.upper(), ', '.join(args))""")], expect='C01.render')
+add('c01-benign-function-text-via-list', 'C01', 'benign', [(FUNCTION, """        args = ', '.join(t.get_expr for t in tokens)
+        self.attr['expr'] = '%s(%s)' % (self.name.upper(), args)""", """        args = [t.get_expr for t in tokens]
+        self.attr['expr'] = '%s(%s)' % (self.name.upper(), ', '.join(args))""")])
+_FILTREFS = [(EXCEL, """        for k, cell in cells.items():
+            if k not in refs:
+                nodes.update(cell.compile(references=refs).add(self.dsp))""", """        ranges = {k: v for k, v in refs.items() if v is not None}
+        for k, cell in cells.items():
+            if k not in refs:
+                nodes.update(cell.compile(references=ranges).add(self.dsp))""")]
+add('c09-from-dict-compiles-against-filtered-names', 'C09', 'break', _FILTREFS, expect='C09.refs')
+add('c03-from-dict-compiles-against-filtered-names', 'C03', 'break', _FILTREFS, expect='C03.refs')
+add('c09-benign-from-dict-compiles-against-copy', 'C09', 'benign', [(EXCEL, """        for k, cell in cells.items():
+            if k not in refs:
+                nodes.update(cell.compile(references=refs).add(self.dsp))""", """        names = dict(refs)
+        for k, cell in cells.items():
+            if k not in refs:
+                nodes.update(cell.compile(references=names).add(self.dsp))""")])
+add('c04-external-links-numbered-after-filtering', 'C04', 'break', [(EXCEL, """            data['external_links'] = {
+                str(i + 1): osp.split(osp.relpath(osp.realpath(osp.join(
+                    fdir, _decode_path(el.file_link.Target)
+                )), self.basedir))
+                for i, el in enumerate(book._external_links)
+                if el.file_link.Target.endswith('.xlsx')
+            }""", """            links = [
+                el for el in book._external_links
+                if el.file_link.Target.endswith('.xlsx')
+            ]
+            data['external_links'] = {
+                str(i + 1): osp.split(osp.relpath(osp.realpath(osp.join(
+                    fdir, _decode_path(el.file_link.Target)
+                )), self.basedir))
+                for i, el in enumerate(links)
+            }""")], expect='C04.extlink')
+add('c04-external-links-zero-based', 'C04', 'break', [(EXCEL, """                str(i + 1): osp.split(osp.relpath(osp.realpath(osp.join(""", """                str(i): osp.split(osp.relpath(osp.realpath(osp.join(""")], expect='C04.extlink')
+add('c04-benign-external-links-enumerate-from-one', 'C04', 'benign', [(EXCEL, """                str(i + 1): osp.split(osp.relpath(osp.realpath(osp.join(""", """                str(i): osp.split(osp.relpath(osp.realpath(osp.join("""), (EXCEL, """                for i, el in enumerate(book._external_links)""", """                for i, el in enumerate(list(book._external_links), 1)""")])
+add('c19-type-vector-memoised-per-range-not-per-source', 'C19', 'break', [(F, """    @functools.lru_cache(typed=True)
+    def check(value):
+        return _get_type_id(value) == type_id and operator(value, condition)
+
+    if is_number(condition):
+        if 'num' not in test_range:
+            test_range['num'] = text2num(test_range['raw'])
+        b = np.vectorize(check, otypes=[bool])(test_range['num'])
+    else:
+        b = np.vectorize(check, otypes=[bool])(test_range['raw'])""", """    if is_number(condition):
+        if 'num' not in test_range:
+            test_range['num'] = text2num(test_range['raw'])
+        values = test_range['num']
+    else:
+        values = np.asarray(test_range['raw'], object)
+    if 'type' not in test_range:
+        test_range['type'] = np.vectorize(_get_type_id, otypes=[int])(values)
+    b = test_range['type'] == type_id
+    b[b] = [operator(v, condition) for v in values[b]]""")], expect='C19.slotmemo')
+add('c19-benign-criterion-check-renamed-and-unrolled', 'C19', 'benign', [(F, """    @functools.lru_cache(typed=True)
+    def check(value):
+        return _get_type_id(value) == type_id and operator(value, condition)
+""", """    @functools.lru_cache(typed=True)
+    def matches(value):
+        return _get_type_id(value) == type_id and operator(value, condition)
+
+    check = matches
+""")])
+add('c19-criterion-compared-without-rank-test', 'C19', 'break', [(F, """        return _get_type_id(value) == type_id and operator(value, condition)""", """        return operator(value, condition)""")], expect='C19.typed')
+add('c18-number-int-behind-isdigit', 'C18', 'break', [(OPERAND, """        try:
+            return int(name)
+        except ValueError:
+            return float(name)""", """        return int(name) if name.isdigit() else float(name)""")], expect='C18.num')
+add('c18-benign-number-int-broader-handler', 'C18', 'benign', [(OPERAND, """        try:
+            return int(name)
+        except ValueError:
+            return float(name)""", """        try:
+            return int(name)
+        except (ValueError, OverflowError):
+            return float(name)""")])
 
 if __name__ == '__main__':
     here = os.path.dirname(os.path.abspath(__file__))
